@@ -172,6 +172,8 @@ func ChildMain() {
 	switch asStr(req["op"]) {
 	case "storeHist":
 		res = runStoreHist(req)
+	case "stress":
+		res = runStress(req)
 	case "storeOnce":
 		// one Store with an optional file-size limit: the crash subject
 		if req["fsize"] != nil {
